@@ -25,6 +25,7 @@ PITCHES = [1.0, 1.5, 2.0, 2.5, 3.0]
 OWN = 1          # universe of the lattice cell
 LAT_CELL = 3
 CONTAINER = 1
+SHELL = 4
 
 
 def _condition(vecs):
@@ -260,11 +261,17 @@ def gen_deck(rng, force=None):
     cells = [
         {'id': CONTAINER, 'mat': 0, 'rho': None, 'expr': deckmod.S(-10),
          'imp': {'n': 1}, 'u': 0, 'fill': {'u': OWN, 'tr': cont_tr}},
-        {'id': 2, 'mat': 0, 'rho': None, 'expr': deckmod.S(10),
+        {'id': 2, 'mat': 0, 'rho': None, 'expr': deckmod.S(9),
          'imp': {'n': 0}, 'u': 0},
+        # a shell around the container: the converted geometry is never empty,
+        # even when every array entry is 0
+        {'id': SHELL, 'mat': SHELL, 'rho': '-1.0',
+         'expr': deckmod.leaf_expr([10, -9]), 'imp': {'n': 1}, 'u': 0},
         lat_cell]
     surfaces.append({'id': 10, 'mn': 'so', 'params': [radius], 'tr': None,
                      'bc': ''})
+    surfaces.append({'id': 9, 'mn': 'so', 'params': [radius + 1.0],
+                     'tr': None, 'bc': ''})
     next_cell, next_surf = 11, 41
     for univ in fillers:
         fc, fs = gen_filler(rng, univ, next_cell, next_surf, centre, scale)
@@ -291,6 +298,7 @@ def gen_deck(rng, force=None):
         radius = float(max(2.0, math.floor(0.6 * radius)))
     radius = force.get('radius', radius)
     surfaces[[s['id'] for s in surfaces].index(10)]['params'] = [radius]
+    surfaces[[s['id'] for s in surfaces].index(9)]['params'] = [radius + 1.0]
     meta = {'d': d, 'kind': kind, 'rpp': use_rpp, 'homogeneous': homogeneous,
             'fill_tr': fill_tr is not None,
             'fill_rot': fill_tr is not None and fill_tr['B'] is not None,
@@ -510,7 +518,7 @@ def compare(deck, t4, points, eps=1e-6):
         for vid in vols:
             comp_of.setdefault(vid, []).append(name)
     failures, checked = [], 0
-    stats = {'leaf': 0, 'own': 0, 'void': 0, 'outside_ranges': 0,
+    stats = {'leaf': 0, 'own': 0, 'shell': 0, 'void': 0, 'outside_ranges': 0,
              'outside_container': 0, 'ambiguous': 0}
     for p, aimed in points:
         try:
@@ -536,13 +544,14 @@ def compare(deck, t4, points, eps=1e-6):
                     index = link[1]
         leaf = None
         if chain is not None and chain[-1] is not None \
-                and chain[0][0] == CONTAINER:
+                and ref.resolve(chain[-1][0])['mat'] \
+                and (ref.resolve(chain[0][0]).get('imp') or {}).get('n', 1):
             leaf = chain[-1][0]
         info = {'point': [float(v) for v in p], 'aimed': aimed,
                 'chain': repr(chain), 'index': index, 'owners': owners}
         if leaf is None:
             if chain is None or chain[0][0] != CONTAINER:
-                stats['outside_container'] += 1
+                stats['outside_container'] += 1   # outside world (imp 0)
             elif index is not None and len(chain) == 3 and chain[-1] is None:
                 stats['void'] += 1
             if owners:
@@ -551,7 +560,8 @@ def compare(deck, t4, points, eps=1e-6):
                                f'{owners}')
                 failures.append(info)
             continue
-        stats['own' if leaf == LAT_CELL else 'leaf'] += 1
+        stats['own' if leaf == LAT_CELL else
+              'shell' if leaf == SHELL else 'leaf'] += 1
         if len(owners) != 1:
             info['why'] = (f'point of chain {chain} lies in {len(owners)} '
                            f'volumes {owners}')
